@@ -126,6 +126,16 @@ let meta (w : string array) =
   done;
   print_endline (String.concat " | " (List.rev !out))
 
+(* CZAR <n> <nslots> c,c,..;c,c,..(one list per walker) f,f,..;f,f,..  -> the gathered count and sum grids *)
+let czar (w : string array) =
+  let ns = int_of_string w.(2) in
+  let grids conv zero s = List.map (fun l -> let a = Array.of_list (List.map conv (split ',' l)) in
+                                     (fun z -> let i = int_of_z z in if i >= 0 && i < Array.length a then a.(i) else zero))
+      (split ';' s) in
+  let gc = czar_gather igrp (grids int_of_string 0 w.(3)) in
+  let gs = czar_gather fgrp (grids fl 0.0 w.(4)) in
+  Printf.printf "Z cnt=%s sum=%s\n" (dump ns string_of_int gc) (dump ns hex gs)
+
 let () =
   try
     while true do
@@ -135,6 +145,7 @@ let () =
         (match w.(0) with
          | "ABF" -> abf w
          | "META" -> meta w
+         | "CZAR" -> czar w
          | _ -> print_endline "?")
     done
   with End_of_file -> ()
